@@ -1,8 +1,12 @@
 package adapter
 
 import (
+	mapset "github.com/deckarep/golang-set/v2"
+
 	"github.com/karagenc/socket.io-go/parser"
 )
+
+type mapsetRooms = mapset.Set[Room]
 
 // C04_select: from EVERY membership matrix of S sockets x R rooms and every (T,E): the real Broadcast delivers to exactly
 // the selected sockets, once each; with the sender's own-id room excluded (what a socket's broadcast operator does) the
@@ -120,5 +124,67 @@ func verifH_C04_immut() {
 	verifAssert(b.rooms.Cardinality() == 0 && b.exceptRooms.Cardinality() == 0, "To/Except leave the receiver untouched")
 	verifAssert(b1.rooms.Cardinality() == 1 && b1.exceptRooms.Cardinality() == 0, "derived operator is independent of later derivations")
 	verifAssert(b2.rooms.Cardinality() == 2 && b2.exceptRooms.Cardinality() == 1, "derivations accumulate")
+	verifReach("end")
+}
+
+// C04_select_own: like C04_select, but the target and exception sets also range over the sockets' own-id rooms (what
+// To(socketID) / Except(socketID) address), so a socket can be selected through its own room AND a joined room at once:
+// still exactly once each. Also checks FetchSockets, which shares the selection code.
+//
+//verif:unwind 40
+func verifH_C04_select_own() {
+	S, R := 2, 2
+	if verifThorough() {
+		S, R = 3, 2
+	}
+	a, st, m0 := verifWorld(S, R)
+	// membership matrix extended by the own-id rooms (column R+k is socket k's own room)
+	m := make([][]bool, S)
+	for i := range m {
+		m[i] = append([]bool(nil), m0[i]...)
+		for k := 0; k < S; k++ {
+			m[i] = append(m[i], i == k)
+		}
+	}
+	pick := func() (mapsetRooms, []bool) {
+		set, bits := verifSubset(R)
+		for k := 0; k < S; k++ {
+			b := verifAnyBool()
+			bits = append(bits, b)
+			if b {
+				set.Add(Room(verifSIDs[k]))
+			}
+		}
+		return set, bits
+	}
+	T, tb := pick()
+	E, eb := pick()
+	opts := &BroadcastOptions{Rooms: T, Except: E}
+	if verifAnyBool() {
+		a.Broadcast(&parser.PacketHeader{Type: parser.PacketTypeEvent, Namespace: "/"}, []any{"ev"}, opts)
+		for i := 0; i < S; i++ {
+			want := 0
+			if verifSelected(m, i, tb, eb) {
+				want = 1
+			}
+			verifAssert(verifCountSID(st.sent, verifSIDs[i]) == want, "broadcast reaches exactly the selected sockets, once each, also when own-id rooms are targeted")
+		}
+	} else {
+		got := a.FetchSockets(opts)
+		for i := 0; i < S; i++ {
+			n := 0
+			for _, s := range got {
+				if s.ID() == verifSIDs[i] {
+					n++
+				}
+			}
+			want := 0
+			if verifSelected(m, i, tb, eb) {
+				want = 1
+			}
+			verifAssert(n == want, "FetchSockets lists exactly the selected sockets, once each")
+		}
+	}
+	verifAssert(verifHeldLocks() == 0, "adapter mutex released")
 	verifReach("end")
 }
